@@ -70,7 +70,65 @@ func vpWarmCaches(env *vpEnv, negOn, dirOn bool) {
 			env.nfs.ReadDir(node)
 		}
 	}
+	// a listing of the child directory itself (so that RMDIR/RENAME of a directory whose own
+	// listing is cached is a reachable step)
+	if n := env.fs.lookup("/d/x"); dirOn && n != nil && n.kind == vpKDir && vpBool("warm-listing-of-x") {
+		if node, err := env.nfs.Lookup("/d/x"); err == nil {
+			env.nfs.ReadDir(node)
+			vpReach("child-directory-listing-cached")
+		}
+	}
+	// ... or the empty listing a removed directory leaves behind (REMOVE keeps it)
+	if n := env.fs.lookup("/d/x"); dirOn && n == nil && vpBool("empty-listing-of-vanished-x") {
+		env.nfs.dirCache.Put("/d/x", nil)
+		vpReach("vanished-directory-listing-cached")
+	}
 	env.fs.log = nil
+}
+
+// vpStaleHandle leaves a live handle for /d/x that was issued while x was an object of the given
+// kind (1 file, 2 directory, 3 symlink) although x is absent now: REMOVE, RMDIR and RENAME do not
+// release the handles of the names they take away, so this is what the table looks like after them.
+func vpStaleHandle(env *vpEnv, kind int) {
+	switch kind {
+	case 1:
+		env.fs.addFileData("/d/x", []byte("old"))
+	case 2:
+		env.fs.addDir("/d/x")
+	case 3:
+		env.fs.addLink("/d/x", "y")
+	default:
+		return
+	}
+	env.handleFor("/d/x")
+	env.fs.addAbsent("/d/x")
+	env.fs.log = nil
+}
+
+// vpHandleCurrent: the handle a successful LOOKUP / CREATE / MKDIR / SYMLINK reply carries for p is
+// bound to a node of the type the backend has at p now (the handlers take their directory / symlink
+// type tests from the node bound to the handle, so a handle left over from an earlier object of
+// another type at the same name must be re-bound when the name is issued again). Nothing is said
+// about handles no reply of this step carried.
+func vpHandleCurrent(env *vpEnv, p, tag string) {
+	{
+		id, ok := env.nfs.fileMap.pathHandles[p]
+		if !ok {
+			return
+		}
+		f, live := env.nfs.fileMap.Get(id)
+		n := env.fs.lookup(p)
+		if !live || n == nil {
+			return
+		}
+		node, isNode := f.(*NFSNode)
+		if !isNode || node.attrs == nil {
+			return
+		}
+		isDir := node.attrs.Mode&os.ModeDir != 0
+		isLnk := node.attrs.Mode&os.ModeSymlink != 0
+		vpAssert(vpAnd(isDir == (n.kind == vpKDir), isLnk == (n.kind == vpKLink)), tag+"-issued-handle-names-the-current-object-type")
+	}
 }
 
 // vpCoherent asserts the coherence invariant by probing the caches.
@@ -98,8 +156,13 @@ func vpCoherent(env *vpEnv, tag string) {
 			if !hit {
 				continue
 			}
+			// A listing can outlive its directory (REMOVE of an empty directory keeps it), but then it
+			// is empty, and every way of putting something at that path again drops or equals it.
+			if n := env.fs.lookup(d); n == nil || n.kind != vpKDir {
+				vpAssert(len(l) == 0, tag+"-listing-of-a-vanished-directory-is-empty")
+				continue
+			}
 			kids := env.fs.children(d)
-			vpAssert(env.fs.lookup(d) != nil, tag+"-listing-only-for-existing-directory")
 			vpAssert(len(l) == len(kids), tag+"-cached-listing-is-current")
 		}
 	}
@@ -237,6 +300,13 @@ func VPH_C02_step() {
 	b := vpServer(vpC02Tree(st), ExportOptions{})
 	hda, hea := a.handleFor("/d"), a.handleFor("/e")
 	hdb, heb := b.handleFor("/d"), b.handleFor("/e")
+	if st.xKind == 0 {
+		if k0 := vpChoose("stale-handle-kind", 0, 3); k0 != 0 {
+			vpReach("stale-handle-for-removed-name")
+			vpStaleHandle(a, k0)
+			vpStaleHandle(b, k0)
+		}
+	}
 	a.clearCaches()
 	vpWarmCaches(a, negOn, dirOn)
 	if vpBool("expired") {
@@ -290,6 +360,18 @@ func VPH_C02_step() {
 	}
 	// the server's caches never hide the effect of a mutation it completed itself
 	vpCoherent(a, "post")
+	if sa == NFS_OK && (r.proc == NFSPROC3_LOOKUP || r.proc == NFSPROC3_CREATE || r.proc == NFSPROC3_MKDIR || r.proc == NFSPROC3_SYMLINK) {
+		vpHandleCurrent(a, "/d/"+r.name, "post")
+		vpHandleCurrent(b, "/d/"+r.name, "post-uncached")
+	}
+	// a handle the reply carries for a directory just made can be used as a directory
+	if r.proc == NFSPROC3_MKDIR && sa == NFS_OK && r.name == "x" {
+		if id, ok := a.nfs.fileMap.pathHandles["/d/x"]; ok {
+			var l vpBuf
+			rl := &vpRd{b: vpReplyBytes(a.call(NFSPROC3_LOOKUP, l.fh(id).str("c").Bytes()))}
+			vpAssert(rl.u32() == NFSERR_NOENT, "new-directory-handle-is-a-directory")
+		}
+	}
 	// and an immediately following LOOKUP of the names agrees with the backend
 	for _, nm := range []string{"x", "y"} {
 		var l vpBuf
